@@ -32,6 +32,14 @@ func dequeProducer(dq *pubsub.Deque[int64], v string) fun.Producer[int64] {
 
 func runDeque(c Case) []Step {
 	dq := pubsub.NewUnlimitedDeque[int64]()
+	capacity := 0
+	if len(c.Opt) == 2 && c.Opt[0] == 'c' {
+		capacity = int(c.Opt[1] - '0')
+		var err error
+		if dq, err = pubsub.NewDeque[int64](pubsub.DequeOptions{Capacity: capacity}); err != nil {
+			panic(err)
+		}
+	}
 	e := &exec{}
 	for i, v := range c.Vars {
 		p := dequeProducer(dq, v)
@@ -41,7 +49,8 @@ func runDeque(c Case) []Step {
 	defer e.stopAll()
 	next := int64(0)
 	push := func(back bool) {
-		v := next + 1
+		next++ // every attempt has its own value
+		v := next
 		var err error
 		act := "pf"
 		if back {
@@ -53,8 +62,29 @@ func runDeque(c Case) []Step {
 		ob := Obs{Kind: "ok"}
 		if err != nil {
 			ob = classify(0, err)
+		}
+		e.emit(act, 0, v, ob)
+		e.afterOp()
+	}
+	force := func(back bool) {
+		next++
+		v := next
+		// the outcome of `dq.tracker.cap() == dq.tracker.len()` is an input of the model's step
+		full := capacity > 0 && dq.Len() == capacity
+		var err error
+		act := "ff"
+		if back {
+			act = "fb"
+			err = dq.ForcePushBack(v)
 		} else {
-			next = v
+			err = dq.ForcePushFront(v)
+		}
+		ob := Obs{Kind: "ok"}
+		if err != nil {
+			ob = classify(0, err)
+		}
+		if full {
+			ob.Msg = "full"
 		}
 		e.emit(act, 0, v, ob)
 		e.afterOp()
@@ -92,6 +122,10 @@ func runDeque(c Case) []Step {
 			push(true)
 		case "PF":
 			push(false)
+		case "FB":
+			force(true)
+		case "FF":
+			force(false)
 		case "OF":
 			pop(false)
 		case "OB":
